@@ -235,17 +235,36 @@ func TestPropTicksSampled(t *testing.T) {
 	})
 }
 
-const rejectRule = "out-of-range inputs: ticks below -270000001 or above 342000000, prices/sqrt prices below the minimum or above the maximum (sqrt prices also anywhere in the extended V2 range 1e-15..1e-6, which the tick->price direction knows but no pool may hold), negative prices; oracle: an error, never a value; plus RoundDownTickToSpacing(t, sp) for t in +-4e8 (edges biased) and sp in {1,10,100,1000} or 1..1e6: result == sp*floor(t/sp) <= t when inside [-270000000, 342000000], else an error; non-trivial = negative tick not divisible by the spacing or an input just outside a bound; distinct by inputs"
+const rejectRule = "out-of-range inputs: ticks below -270000001 or above 342000000 (just outside, far outside, and on/around decade boundaries 9e6*k beyond the range), prices/sqrt prices below the minimum or above the maximum (sqrt prices also anywhere in the extended V2 range 1e-15..1e-6, which the tick->price direction knows but no pool may hold), negative prices; oracle: an error, never a value; plus RoundDownTickToSpacing(t, sp) for t in +-4e8 (edges biased) and sp in {1,10,100,1000} or 1..1e6: result == sp*floor(t/sp) <= t when inside [-270000000, 342000000], else an error; non-trivial = negative tick not divisible by the spacing or an input just outside a bound; distinct by inputs"
 
 func TestPropRejectAndSpacing(t *testing.T) {
 	drv.Check(t, drv.Cfg{Name: "reject-and-spacing", Rule: rejectRule, Quick: 20000, Thorough: 600000}, func(rt *rapid.T, c *drv.Case) {
 		switch rapid.IntRange(0, 3).Draw(rt, "kind") {
 		case 0: // out-of-range ticks
 			var tk int64
-			if rapid.Bool().Draw(rt, "low") {
-				tk = minCurV2 - rapid.Int64Range(1, 1<<40).Draw(rt, "d")
-			} else {
-				tk = maxTick + rapid.Int64Range(1, 1<<40).Draw(rt, "d")
+			switch low := rapid.Bool().Draw(rt, "low"); rapid.IntRange(0, 2).Draw(rt, "oorShape") {
+			case 0: // decade boundaries beyond the range (the conversion is piecewise per decade of 9e6 ticks; +-3 around them)
+				k := rapid.Int64Range(39, 400).Draw(rt, "decadesOut")
+				if low {
+					k = -rapid.Int64Range(31, 400).Draw(rt, "decadesOutLow")
+				}
+				tk = k*decade + rapid.Int64Range(-3, 3).Draw(rt, "off")
+				if tk >= minCurV2 && tk <= maxTick {
+					tk = maxTick + 1
+				}
+				c.Class("out-of-range-decade-boundary-tick")
+			case 1: // just outside
+				if low {
+					tk = minCurV2 - rapid.Int64Range(1, 5).Draw(rt, "d")
+				} else {
+					tk = maxTick + rapid.Int64Range(1, 5).Draw(rt, "d")
+				}
+			default:
+				if low {
+					tk = minCurV2 - rapid.Int64Range(1, 1<<40).Draw(rt, "d")
+				} else {
+					tk = maxTick + rapid.Int64Range(1, 1<<40).Draw(rt, "d")
+				}
 			}
 			if p, err := clmath.TickToPrice(tk); err == nil {
 				rt.Fatalf("TickToPrice(%d) out of range returned %s", tk, p)
